@@ -43,6 +43,7 @@ class Ctx:
         self.tree_hash = tree_hash
         self.facts_dir = facts_dir
         self.fixture = fixture
+        self.repo = None        # source tree the facts were extracted from (set by main)
         self._cg = None
         self.instances = []
         self.floors = []         # (rule, what, measured, minimum)
@@ -155,6 +156,7 @@ def main(argv=None):
     try:
         prog, th, fdir = load_program(repo, all_targets=False)
         ctx = Ctx(prop, args.tier, seed, prog, th, fdir)
+        ctx.repo = repo
         pc = {"skipped": True} if args.no_fixture else positive_control(mod, args.tier, seed)
         run_rules(mod, ctx)
         extra = {}
